@@ -14,8 +14,11 @@ behaviour):
 * the client block is the list `cblk` (`client_total = cblk.length`),
   `cnext` the offset of `client_next` in it and `cavail`.
 * the byte source is the script of read-callback results still to come:
-  non-empty blocks `src`, then `term` forever (end of file or error).  A
-  zero-length block is end-of-file by the callback contract.
+  non-empty blocks `src` of the current data node, then end of that node.  A
+  zero-length block is end-of-file by the callback contract.  `later` holds the
+  scripts of the following data nodes of a multi-volume set (each ends with its
+  own end-of-file, after which `client_switch_proxy` moves to the next one);
+  after the last node comes `term` forever (end of file or error).
 * the skip callback is a script `skips` of answers; each answer is consumed by
   one invocation; an exhausted script answers 0 ("cannot skip").
 -/
@@ -37,6 +40,7 @@ structure State where
   fatal : Bool := false
   canSkip : Bool := true
   src : List (List Nat) := []
+  later : List (List (List Nat)) := []
   term : Term := .eof
   skips : List Int := []
   deriving Repr
@@ -70,6 +74,8 @@ def moveFwd (s : State) (min : Nat) : State :=
   unfold moveFwd; split <;> rfl
 @[simp] theorem moveFwd_cavail (s : State) (m : Nat) : (moveFwd s m).cavail = s.cavail := by
   unfold moveFwd; split <;> rfl
+@[simp] theorem moveFwd_later (s : State) (m : Nat) : (moveFwd s m).later = s.later := by
+  unfold moveFwd; split <;> rfl
 
 /-- Install the enlarged copy buffer (contents are moved to its start). -/
 def enlarge (s : State) (min bs : Nat) : State :=
@@ -78,6 +84,8 @@ def enlarge (s : State) (min bs : Nat) : State :=
 @[simp] theorem enlarge_src (s : State) (m b : Nat) : (enlarge s m b).src = s.src := by
   unfold enlarge; split <;> rfl
 @[simp] theorem enlarge_cavail (s : State) (m b : Nat) : (enlarge s m b).cavail = s.cavail := by
+  unfold enlarge; split <;> rfl
+@[simp] theorem enlarge_later (s : State) (m b : Nat) : (enlarge s m b).later = s.later := by
   unfold enlarge; split <;> rfl
 
 /-- How many client bytes the loop copies into the copy buffer this round. -/
@@ -108,6 +116,11 @@ def aheadLoop (s : State) (min : Nat) : AheadR × State :=
       else
         match hs : s.src with
         | [] =>
+          match hl : s.later with
+          | nxt :: more =>
+            -- end of this data node, another one follows: client_switch_proxy(cursor + 1), read again
+            aheadLoop { s1 with src := nxt, later := more } min
+          | [] =>
           match s1.term with
           | .err => (.fatal, { s1 with cblk := [], cnext := 0, cavail := 0, fatal := true })
           | .eof => (.short s1.cb.length, { s1 with cblk := [], cnext := 0, cavail := 0, eof := true })
@@ -127,18 +140,25 @@ def aheadLoop (s : State) (min : Nat) : AheadR × State :=
         else
           aheadLoop { s2 with cb := s2.cb ++ (s2.cblk.drop s2.cnext).take tc,
                               cnext := s2.cnext + tc, cavail := s2.cavail - tc } min
-termination_by (s.src.length, s.cavail)
+termination_by (s.later.length, s.src.length, s.cavail)
 decreasing_by
   · simp_wf
     apply Prod.Lex.left
-    simp [hs]
+    simp [hl]
   · simp_wf
     apply Prod.Lex.right'
     · simp
-    · have h1 : tc ≤ s2.cavail := tocopy_le s2 min
-      have h2 : s2.cavail = s.cavail := by simp [s2, s1]
-      have h3 : tc = tocopy (enlarge (moveFwd s min) min bs) min := rfl
-      omega
+    · apply Prod.Lex.left
+      simp [hs]
+  · simp_wf
+    apply Prod.Lex.right'
+    · simp
+    · apply Prod.Lex.right'
+      · simp
+      · have h1 : tc ≤ s2.cavail := tocopy_le s2 min
+        have h2 : s2.cavail = s.cavail := by simp [s2, s1]
+        have h3 : tc = tocopy (enlarge (moveFwd s min) min bs) min := rfl
+        omega
 
 /-- `__archive_read_filter_ahead(filter, min, &avail)`. -/
 def ahead (s : State) (min : Nat) : AheadR × State :=
@@ -177,6 +197,9 @@ Returns total skipped so far or a negative error. -/
 def readSkipLoop (s : State) (request : Nat) (total : Nat) : Int × State :=
   match hs : s.src with
   | [] =>
+    match hl : s.later with
+    | nxt :: more => readSkipLoop { s with src := nxt, later := more } request total   -- next data node
+    | [] =>
     match s.term with
     | .err => (-30, { s with fatal := true })
     | .eof => (total, { s with eof := true })
@@ -188,8 +211,11 @@ def readSkipLoop (s : State) (request : Nat) (total : Nat) : Int × State :=
                                  position := s.position + request, src := rest })
     else
       readSkipLoop { s with position := s.position + n, src := rest } (request - n) (total + n)
-termination_by s.src.length
-decreasing_by simp_wf; simp [hs]
+termination_by (s.later.length, s.src.length)
+decreasing_by
+  · simp_wf; apply Prod.Lex.left; simp [hl]
+  · simp_wf; apply Prod.Lex.right'; · simp
+    simp [hs]
 
 /-- "Use up the copy buffer first. Then use up the client buffer."  Returns the
 new state and the number of bytes taken from the two buffers. -/
@@ -227,6 +253,6 @@ def consume (s : State) (request : Int) : Int × State :=
 
 /-- Bytes of the stream not yet consumed. -/
 def remaining (s : State) : List Nat :=
-  s.cb ++ (s.cblk.drop s.cnext).take s.cavail ++ s.src.flatten
+  s.cb ++ (s.cblk.drop s.cnext).take s.cavail ++ (s.src.flatten ++ s.later.flatten.flatten)
 
 end LA.RA
